@@ -94,7 +94,7 @@ def solver_part(ctx):
         for cname, solver in CONFIGS:
             for gi, gt in enumerate(gts):
                 index.append((pi, cname, gi))
-                cases.append(H.case(text, solver, [H.solve_step(gt)], cpu=5, stack_mb=16))
+                cases.append(H.case(text, solver, [H.solve_step(gt)], cpu=5, stack_mb=8))
     res, outs = H.run(cases, timeout=ctx.n(900, 3000))
     stats = {"runs": 0, "answers": 0, "overflow_guard": 0, "timeouts": 0, "known_class": 0, "aborts": 0, "panics": 0, "max_slg_work": 0, "max_rec_work": 0}
     nv = 0
@@ -110,11 +110,16 @@ def solver_part(ctx):
         stats["max_rec_work"] = max(stats["max_rec_work"], r[0]["rec"])
         k = H.kind(a)
         rec = {"kind": "solver-work", "program": text, "config": cname, "goal": gts[gi], "outcome": sx.to_sexp(a), "case": sx.to_sexp(cs), "shape": p.shape}
+        if k in ("Timeout", "Abort") and cname.startswith("rec") and H.f13_class(p, goals[gi]) and ctx.match_known(None, "F13-native-stack-overflow"):
+            # unbounded native recursion: stack overflow with a small stack, CPU limit with a large one
+            stats["known_class"] += 1
+            ctx.known_finding(ctx.match_known(None, "F13-native-stack-overflow"), "%s: %s" % (gts[gi], text[:100]))
+            continue
         if k == "Timeout":
             stats["timeouts"] += 1      # inconclusive: exponential instance (N2/N5), the work is bounded by max_size
             continue
         if k == "Abort":
-            if cname.startswith("rec") and H.f13_class(p, goals[gi]) and ctx.match_known(None, "F13-native-stack-overflow"):
+            if False:
                 stats["known_class"] += 1
                 ctx.known_finding(ctx.match_known(None, "F13-native-stack-overflow"), "%s: %s" % (gts[gi], text[:100]))
                 continue
